@@ -32,11 +32,11 @@ Definition consume (n : nat) (cols : N) (s : lx) : lx :=
   mkLx (skipn n (rest s)) (rev_append (firstn n (rest s)) (before s))
        (lpos s + N.of_nat n) (lline s) (lcol s + cols) (at_start s).
 
-(* advance(): one rune, one column *)
+(* advance(): one rune; columns are counted in UTF-16 code units (utf16Width) *)
 Definition advance (s : lx) : lx :=
   match rest s with
   | [] => s
-  | _ => consume (snd (decode (rest s))) 1 s
+  | _ => consume (snd (decode (rest s))) (u16len (fst (decode (rest s)))) s
   end.
 
 Definition peek (s : lx) : N := match rest s with [] => 0 | c :: _ => c end.
@@ -69,7 +69,7 @@ Fixpoint span_until (stop : N -> bool) (l : list N) (skip : nat) : nat * N :=
       | S k => let '(n, cols) := span_until stop r k in (S n, cols)
       | O =>
           if stop c then (O, 0)
-          else let '(n, cols) := span_until stop r (snd (decode l) - 1) in (S n, cols + 1)
+          else let '(n, cols) := span_until stop r (snd (decode l) - 1) in (S n, cols + u16len (fst (decode l)))
       end
   end.
 
@@ -126,7 +126,7 @@ Fixpoint account_span (l : list N) (skip : nat) : nat * N * nat :=
             end
           else if isAccountTerminator rn then (O, 0, O)
           else let '(n, cols, last) := account_span r (size - 1) in
-               (S n, cols + 1, match last with O => size | _ => S last end)
+               (S n, cols + u16len rn, match last with O => size | _ => S last end)
       end
   end.
 
@@ -164,7 +164,7 @@ Definition scanNumber (s : lx) : token * lx :=
 
 Definition scanCurrencySymbol (s : lx) : token * lx :=
   let size := snd (decode (rest s)) in
-  let s' := consume size 1 s in
+  let s' := consume size (u16len (fst (decode (rest s)))) s in
   (tok TCommodity (firstn size (rest s)) (position s) (position s'), s').
 
 Definition scanQuotedCommodity (s : lx) : token * lx :=
